@@ -464,15 +464,16 @@ def write_evidence(ctx, meta, n_viol):
         'wall_s': round(time.time() - ctx.t0, 2),
         'violations': n_viol,
     }
-    (VERIF / 'evidence').mkdir(exist_ok=True)
-    p = VERIF / 'evidence' / f'{ctx.pid}.json'
+    edir = Path(os.environ.get('VERIF_EVIDENCE_DIR') or (VERIF / 'evidence'))   # mutant self-tests write elsewhere
+    edir.mkdir(parents=True, exist_ok=True)
+    p = edir / f'{ctx.pid}.json'
     tmp = p.with_suffix('.json.tmp')
     tmp.write_text(json.dumps(ev, indent=1, default=str) + '\n')
     os.replace(tmp, p)
 
 
 def write_replay(ctx, v, idx):
-    d = VERIF / 'replays' / ctx.pid
+    d = (Path(os.environ['VERIF_EVIDENCE_DIR']) / 'replays' if os.environ.get('VERIF_EVIDENCE_DIR') else VERIF / 'replays') / ctx.pid
     d.mkdir(parents=True, exist_ok=True)
     h = hashlib.sha256((v.key + json.dumps(v.inp, default=str, sort_keys=True)).encode()).hexdigest()[:12]
     p = d / f'{h}.json'
